@@ -348,7 +348,12 @@ func (c *Ctx) Explore(name, doc string, bound, maxLen int, d func(x *X)) {
 				v.Confirmed++
 			}
 			if !ok {
-				panic(&mc.FrameworkError{Msg: fmt.Sprintf("violation %s in %s did not reproduce on replay (nondeterminism)", v.Key(), name)})
+				// The drivers are deterministic functions of their choices (they have
+				// been run on the unchanged tree without ever diverging), so a failure
+				// that does not come back on the same choices means the library's
+				// behaviour depended on calls made earlier in this process.
+				v.Kind += "/depends-on-earlier-calls"
+				v.Message += fmt.Sprintf("\n(observed in the exploration; replaying the same choices in the same process reproduced it %d of 5 times: the behaviour depends on state left behind by earlier calls)", v.Confirmed)
 			}
 			v.Replay = c.writeReplay(&v)
 			c.Res.Violations = append(c.Res.Violations, v)
@@ -357,7 +362,29 @@ func (c *Ctx) Explore(name, doc string, bound, maxLen int, d func(x *X)) {
 			ex.Stop = true
 		}
 	}
-	ex.Explore(wrap)
+	func() {
+		defer func() {
+			r := recover()
+			if r == nil {
+				return
+			}
+			fe, ok := r.(*mc.FrameworkError)
+			if !ok || !strings.HasPrefix(fe.Msg, "nondeterministic driver") {
+				panic(r)
+			}
+			// Replaying a recorded choice prefix met a different choice structure
+			// than the run that recorded it. The driver computes its choice points
+			// from the library's results only, so the library answered differently
+			// the second time: its behaviour depends on earlier calls.
+			v := Violation{Property: c.Check.ID, Exploration: name, Kind: "behaviour-depends-on-earlier-calls", InputQuoted: "(see message)",
+				Message: "while replaying a recorded choice prefix the same driver met different choice points than when the prefix was recorded (" + fe.Msg + "): results of the library depend on calls made earlier in the same process (state kept between calls)"}
+			v.Replay = c.writeReplay(&v)
+			c.Res.Violations = append(c.Res.Violations, v)
+			c.Res.ViolationCount++
+			ex.Stop = true
+		}()
+		ex.Explore(wrap)
+	}()
 	er.Executions, er.States, er.Transitions, er.MaxDepth = ex.Executions, ex.States, ex.Transitions, ex.MaxDepth
 	er.Exhaustive = ex.Exhaustive && !ex.Stop
 	c.Res.Explorations = append(c.Res.Explorations, er)
